@@ -374,7 +374,6 @@ func record(r *vf.Run, res roundResult, p plan, build string) {
 	}
 	if res.Sig != "" {
 		r.Violation(res.Sig, res.What, res.Witness)
-		return
 	}
 	if r.Counter("rounds_plain")%50 == 1 {
 		ao := res.ArrivalOrder
